@@ -9,6 +9,7 @@ import (
 	"fmt"
 	"math/rand"
 	"reflect"
+	"sort"
 	"strings"
 )
 
@@ -19,6 +20,8 @@ type tagSite struct {
 	Vars  []*Path // variable paths occurring in receiver or arguments
 	Rules map[string]bool
 	Ty    Ty
+	// ProgVars: plain texts of the simple dotted variables that occur in the program
+	ProgVars map[string]bool
 }
 
 func pathsOf(e *Expr) []*Path {
@@ -66,6 +69,17 @@ func invalidates(s *Stmt, site *tagSite) bool {
 		return false
 	case "forget", "changed":
 		if s.Name == "" {
+			return false
+		}
+		if site.ProgVars[s.Name] {
+			// the name is exactly a variable of the program (the engine resets that variable only):
+			// it concerns the call iff that variable occurs in it (step-wise prefix overlap)
+			named := P(s.Name)
+			for _, v := range site.Vars {
+				if overlap(named, v) {
+					return true
+				}
+			}
 			return false
 		}
 		if strings.Contains(site.Text, s.Name) {
@@ -182,6 +196,50 @@ func genC13(r *rand.Rand) (*Program, []*tagSite) {
 				}
 			}
 		}
+	}
+	// simple dotted variables of the program, and superfluous announcements naming some of them
+	// (announcing a change that did not happen is legal and must only concern that variable)
+	progVars := map[string]bool{}
+	collect := func(e *Expr) {
+		e.Walk(func(x *Expr) {
+			if x.Op == "var" && x.Path != nil && len(x.Path.Steps) > 0 {
+				simple := true
+				for _, st := range x.Path.Steps {
+					if st.Sel != nil {
+						simple = false
+					}
+				}
+				if simple {
+					progVars[PathText(x.Path)] = true
+				}
+			}
+		})
+	}
+	for _, rule := range prog.Rules {
+		collect(rule.When)
+		for _, st := range rule.Then {
+			if st.RHS != nil {
+				collect(st.RHS)
+			}
+			if st.Target != nil && st.Kind == "assign" {
+				collect(VarE(st.Target, TAny, 0))
+			}
+		}
+	}
+	var names []string
+	for n := range progVars {
+		names = append(names, n)
+	}
+	sort.Strings(names)
+	if len(names) > 0 {
+		for _, rule := range prog.Rules {
+			if r.Intn(3) == 0 {
+				rule.Then = append(rule.Then, &Stmt{Kind: []string{"changed", "forget"}[r.Intn(2)], Name: names[r.Intn(len(names))]})
+			}
+		}
+	}
+	for _, s := range sites {
+		s.ProgVars = progVars
 	}
 	return prog, sites
 }
